@@ -350,8 +350,17 @@ func calleeMatches(fn *ssa.Function, pats []string) (string, bool) {
 			return p, true
 		}
 	}
-	if matchesFuncGlob(name, pats) {
-		return short, true
+	// relative to the package ("(*T).m"), never a closure of the function named
+	rel := short
+	if i := strings.Index(short, "."); i >= 0 {
+		rel = short[i+1:]
+	}
+	for _, p := range pats {
+		for _, c := range []string{short, rel} {
+			if ok, _ := path.Match(p, c); ok {
+				return short, true
+			}
+		}
 	}
 	return "", false
 }
@@ -381,6 +390,17 @@ func (w *World) callersObligations(prop string) []*Obligation {
 					if ci, ok := ins.(ssa.CallInstruction); ok {
 						if c, ok := calleeMatches(ci.Common().StaticCallee(), cr.Callees); ok {
 							hit, pos = c, ins.Pos()
+						} else if cc := ci.Common(); cc.IsInvoke() {
+							// a call through an interface: "(RemoteNode).ReadContext"
+							if nt, ok := cc.Value.Type().(*types.Named); ok && nt.Obj().Pkg() != nil {
+								full := nt.Obj().Pkg().Path() + ".(" + nt.Obj().Name() + ")." + cc.Method.Name()
+								rel := "(" + nt.Obj().Name() + ")." + cc.Method.Name()
+								for _, p := range cr.Callees {
+									if p == full || p == rel || p == shortName(full) {
+										hit, pos = rel, ins.Pos()
+									}
+								}
+							}
 						}
 					}
 					if _, isDbg := ins.(*ssa.DebugRef); isDbg {
@@ -426,4 +446,89 @@ func (w *World) callersObligations(prop string) []*Obligation {
 			File: cr.File, Line: cr.Line, Text: "callers " + strings.Join(cr.Callees, " "), Detail: map[string]string{"why": why}, Solver: "ssa-scan"})
 	}
 	return out
+}
+
+// ---- map_ranges --------------------------------------------------------------------------------------------------
+//
+//	map_ranges : <func> <func> ...                     [Cnn]
+//
+// Go randomises the iteration order of its maps. The listed functions are the only ones of the repository that
+// range over a Go map (each of them either does not depend on the order or sorts afterwards, which its own contract
+// says); a NEW map iteration anywhere else - in a decoder, a merge step, a helper a change adds - fails here.
+func (w *World) mapRangeObligations(prop string) []*Obligation {
+	var out []*Obligation
+	var names []string
+	for n := range w.P.Funcs {
+		names = append(names, n)
+	}
+	sort.Strings(names)
+	for _, mr := range w.C.MapRanges {
+		if !hasTag(mr.Tags, prop) {
+			continue
+		}
+		seen := 0
+		cnt := map[string]int{}
+		for _, n := range names {
+			fn := w.P.Funcs[n]
+			if !w.P.InRepo(FuncPkgPath(fn)) || len(fn.Blocks) == 0 {
+				continue
+			}
+			for _, b := range fn.Blocks {
+				for _, ins := range b.Instrs {
+					r, ok := ins.(*ssa.Range)
+					if !ok {
+						continue
+					}
+					if _, isMap := r.X.Type().Underlying().(*types.Map); !isMap {
+						continue
+					}
+					seen++
+					if matchesFuncGlob(n, mr.Allowed) {
+						continue
+					}
+					cnt[n]++
+					out = append(out, &Obligation{Name: fmt.Sprintf("%s/map-range#%d", n, cnt[n]), Func: n, Kind: "map-range", Tags: mr.Tags,
+						Status: "failed", File: mr.File, Line: mr.Line, SrcPos: w.P.posStr(r.Pos()),
+						Text:   "map_ranges: Go maps are ranged over only in the listed functions",
+						Detail: map[string]string{"why": shortName(n) + " ranges over a Go map (" + typeKey(r.X.Type()) + "): the iteration order differs from run to run"}})
+				}
+			}
+		}
+		st, why := "discharged", fmt.Sprintf("%d map iterations scanned", seen)
+		if seen == 0 {
+			st, why = "failed", "vacuous: no map iteration found in the repository"
+		}
+		out = append(out, &Obligation{Name: "map_ranges/rule", Func: "map_ranges", Kind: "map-range", Tags: mr.Tags, Status: st,
+			File: mr.File, Line: mr.Line, Text: "map_ranges", Detail: map[string]string{"why": why}, Solver: "ssa-scan"})
+	}
+	return out
+}
+
+func cmdMapRanges() int {
+	w, err := loadWorld()
+	if err != nil {
+		fmt.Fprintln(os.Stderr, err)
+		return 2
+	}
+	var names []string
+	for n := range w.P.Funcs {
+		names = append(names, n)
+	}
+	sort.Strings(names)
+	for _, n := range names {
+		fn := w.P.Funcs[n]
+		if !w.P.InRepo(FuncPkgPath(fn)) {
+			continue
+		}
+		for _, b := range fn.Blocks {
+			for _, ins := range b.Instrs {
+				if r, ok := ins.(*ssa.Range); ok {
+					if _, isMap := r.X.Type().Underlying().(*types.Map); isMap {
+						fmt.Printf("%-70s %-40s %s\n", shortName(n), typeKey(r.X.Type()), w.P.posStr(r.Pos()))
+					}
+				}
+			}
+		}
+	}
+	return 0
 }
